@@ -29,6 +29,7 @@ def pool(seed: int) -> list[dict]:
     fig["title"] = {"text": ["T fig"], "text_color": "navy"}
     fig.pop("kind", None)
     hdr = {"text": ["H id", "H a", "H b"]}
+    bmat = [["single", "", "dotted"], ["", "single", ""], ["dashed", "", "single"], ["", "", ""]]
     return [
         # 0/1: plain, same (shareable) RTFBody()/RTFPage(), different column counts
         {"df": f3, "body": {}, "page": {}},
@@ -60,6 +61,10 @@ def pool(seed: int) -> list[dict]:
          "source": {"text": ["R shared"], "as_table": True}, "page": {}},
         # 12: the shared source, on a page that ends without a closing border
         {"df": f3b, "body": {}, "source": {"text": ["R shared"], "as_table": True}, "page": {"border_last": ""}},
+        # 13/14: one RTFBody (shareable) with cell-by-cell border matrices of the frame's own shape; 14 closes its table differently
+        {"df": f3, "body": {"border_top": bmat, "border_bottom": bmat}, "page": {}},
+        {"df": f3, "body": {"border_top": bmat, "border_bottom": bmat}, "footnote": {"text": ["F closes"], "as_table": True},
+         "page": {"border_last": "", "border_first": "dotted"}},
     ]
 
 
